@@ -569,6 +569,74 @@ PINNED = [{'dom': [['g', 2], ['a', 2], ['e', 2], ['b', 3], ['c', 4]],
            'total': 10000.0, 'sigma': 100.0, 'mseed': 338760130, 'oracle': 'approx', 'iters': 1}]
 
 
+def zeros_warm_history(res, r, tier, viol_cap):
+    """structural zeros + warm start on disjoint families: two estimate calls on one LocalInference object whose clique families differ
+    (the clique that carried the zeros disappears); nothing is relaxed on a disjoint family, so every call must return, per clique, the
+    closed-form optimum restricted to the allowed cells"""
+    from mbi import LocalInference
+    names = ['A', 'B', 'C', 'D']
+    r.shuffle(names)
+    dom = [[a, r.choice([2, 3, 3, 4])] for a in names]
+    sizes = dict(map(tuple, dom))
+    za = r.choice([a for a in names if sizes[a] >= 3] or names[:1])
+    if sizes[za] < 2:
+        return
+    dead = r.sample(range(sizes[za]), 1 if sizes[za] < 4 else 2)
+    zeros = {(za,): [(v,) for v in dead]}
+    a, b, c, d = names
+    fams = [[[a, b], [c, d]], [[a, c], [b, d]]]
+    if r.random() < 0.5:
+        fams.reverse()
+    T = r.choice([50.0, 200.0, 1000.0])
+    sigma = 0.02 * T
+    d_obj = rggen.mk_domain(dom)
+    for oracle in ORACLES:
+        warm = r.random() < 0.75
+        prng = np.random.RandomState(r.randrange(2**31))
+        canon = {'dom': dom, 'zeros': {za: dead}, 'families': fams, 'total': T, 'oracle': oracle, 'warm_start': warm, 'history': 'zeros+warm'}
+        res.case(canon, True)
+        res.count('structural zeros on disjoint families, two calls' + (' (warm start)' if warm else ''))
+        eng = LocalInference(d_obj, iters=600, marginal_oracle=oracle, structural_zeros=dict(zeros), warm_start=warm)
+        for k, fam in enumerate(fams):
+            meas = []
+            for cl in fam:
+                n = int(np.prod([sizes[x] for x in cl]))
+                y = prng.dirichlet(np.ones(n)) * T + prng.normal(0, sigma, n)
+                meas.append((np.eye(n), y, sigma, tuple(cl)))
+            try:
+                with np.errstate(all='ignore'):
+                    model = eng.estimate(meas, total=T)
+            except Exception as e:
+                viol_cap('failing-input', f'oracle {oracle!r}, structural zeros on {za}={dead}, call {k + 1} (warm_start={warm}): estimate raises {type(e).__name__}: {str(e)[:100]}',
+                         {'request': canon}, f'local:zeros:raises:{type(e).__name__}')
+                break
+            bad = None
+            for Q, y, sg, cl in meas:
+                x = np.asarray(model.project(cl).datavector(), dtype=float)
+                shape = [sizes[t] for t in cl]
+                mask = np.ones(shape, dtype=bool)
+                if za in cl:
+                    idx = [slice(None)] * len(cl)
+                    for v in dead:
+                        idx[list(cl).index(za)] = v
+                        mask[tuple(idx)] = False
+                mask = mask.flatten()
+                ref = np.zeros(mask.size)
+                ref[mask] = simplex_projection(y[mask], T)
+                if not np.all(np.isfinite(x)) or x.min() < -1e-9 * T or abs(x.sum() - T) > 1e-6 * T:
+                    bad = f'table {list(cl)} is not a valid table (sum {x.sum()!r}, min {x.min()!r})'
+                elif x[~mask].sum() > 1e-6 * T:
+                    bad = f'table {list(cl)} puts mass {x[~mask].sum():.6g} on structurally impossible cells'
+                elif np.abs(x - ref).max() > 1e-3 * T:
+                    bad = f'table {list(cl)} differs from the exact optimum on the allowed cells by {np.abs(x - ref).max():.4g} records (600 iterations)'
+                if bad:
+                    break
+            if bad:
+                viol_cap('failing-input', f'oracle {oracle!r}, structural zeros on {za}={dead}, call {k + 1} of 2 on one estimator (warm_start={warm}), disjoint cliques {fam}, total {T}: {bad}',
+                         {'request': canon}, 'local:zeros:' + bad.split()[0] + ':' + bad.split()[2][:6])
+                break
+
+
 def run(res, drv, tier, seed):
     if tier != 'quick':
         for q in PINNED:
@@ -584,6 +652,8 @@ def run(res, drv, tier, seed):
             res.count('cases skipped by the time budget', n - idx)
             break
         one_case(res, drv, r, tier, viol_cap, idx, limit - (time.time() - t0))
+    for _ in range(1 if tier == 'quick' else 8):
+        zeros_warm_history(res, r, tier, viol_cap)
     sub = res.extra.get('suboptimality', [])
     if sub:
         res.extra['worst_suboptimality_local_at_200'] = max([s[2] for s in sub if s[1] >= 200], default=None)
